@@ -102,6 +102,11 @@ theorem gen_methods_delegate :
     Generated.C13.interferogramRenderDelegates = true := by
   decide
 
+/-- `Interferogram.psd / bandlimited_rms / total_integrated_scatter` read nothing of the object but `data`, `dx`, `wavelength`
+(and call each other) and store nothing on it: their results are functions of the current state, not of earlier calls -/
+theorem gen_methods_stateless : Generated.C13.interferogramSpectralMethodsStateless = true := by
+  decide
+
 /-! ## the spectrum sits on the returned axes -/
 
 /-- the spectrum returned by `psd` sits on the returned axes: the sample displayed at position `i` has
